@@ -87,7 +87,9 @@ func gid() int64 {
 
 // round runs one stress round; returns false if something got stuck (the
 // process then holds blocked goroutines; the caller stops the run).
-func round(rr *rec, posters, per, nestEvery int, budget time.Duration) bool {
+// With burst = true the loop starts polling only after every poster has
+// returned, so the first dispatch finds the whole burst queued.
+func round(rr *rec, posters, per, nestEvery int, budget time.Duration, burst bool) bool {
 	r := &scen{r: rr}
 	defer r.close()
 	ioc, err := sonic.NewIO()
@@ -102,6 +104,7 @@ func round(rr *rec, posters, per, nestEvery int, budget time.Duration) bool {
 		stop     int32
 		loopDone = make(chan struct{})
 		rest     = make(chan [2]int, 1)
+		release  = make(chan struct{})
 	)
 	mkHandler := func(p, seq, nest int) func() { return nil }
 	mkHandler = func(p, seq, nest int) func() {
@@ -111,7 +114,9 @@ func round(rr *rec, posters, per, nestEvery int, budget time.Duration) bool {
 				onLoop = 1
 			}
 			r.emit(Ev{Ev: "Run", P: p, Seq: seq, Nest: nest, Loop: onLoop})
-			if nest == 0 && nestEvery > 0 && seq%nestEvery == 0 {
+			// in a burst round only the early handlers post again, so that the queue's tail is
+			// dispatched with nothing new arriving (a wake-up consumed too early is then fatal)
+			if nest == 0 && nestEvery > 0 && seq%nestEvery == 0 && (!burst || seq <= per/5) {
 				// Post from inside a posted handler
 				atomic.AddInt64(&expected, 1)
 				r.emit(Ev{Ev: "PostB", P: p, Seq: seq, Nest: 1})
@@ -127,6 +132,9 @@ func round(rr *rec, posters, per, nestEvery int, budget time.Duration) bool {
 		atomic.StoreInt64(&loopGid, gid())
 		tm, _ := sonic.NewTimer(ioc)
 		k := 0
+		if burst {
+			<-release
+		}
 		for atomic.LoadInt32(&stop) == 0 {
 			_ = ioc.RunOneFor(2 * time.Millisecond)
 			k++
@@ -175,6 +183,7 @@ func round(rr *rec, posters, per, nestEvery int, budget time.Duration) bool {
 		r.emit(Ev{Ev: "Stuck", What: "post"})
 		ok = false
 	}
+	close(release)
 	if ok {
 		deadline := time.Now().Add(budget)
 		for atomic.LoadInt64(&ran) < atomic.LoadInt64(&expected) && time.Now().Before(deadline) {
@@ -242,7 +251,14 @@ func Run(a tr.Args) error {
 			ps = 2
 		}
 		runtime.GOMAXPROCS(2 + int((a.Seed+int64(3*k))%7))
-		if !round(r, ps, per, nestEvery, budget) {
+		// every third round is a burst: many more handlers queued than any
+		// per-dispatch bound a poller might have
+		burst := k%3 == 0
+		n := per
+		if burst {
+			n = 5 * per
+		}
+		if !round(r, ps, n, nestEvery, budget, burst) {
 			sum.Notes = fmt.Sprintf("round %d got stuck; stopped", k)
 			break
 		}
